@@ -86,6 +86,8 @@ func verifLemmaPtsRoundTrip(buf []byte, fb uint8, x uint64) (uint8, uint64) {
 //@                               && (twoTs ==> ptsAt(P, ps+14) == (frame.Dts + 63000) & (1<<33 - 1) && P[ps+14]>>4 == 1)
 //@   loop 1 step [C09.ts.data] thorough   ds <= 188 && lpos - old(lpos) == 188 - ds && forall j in [0, 188 - ds) :: P[ds+j] == frame.Raw[old(lpos)+j]
 //@   loop 1 step [C09.ts.end]    wpos + (lpos - old(lpos)) == 188
+//@   assert after "packet[4] = uint8(stuffSize - 1)" [C09.af.len.new] checkonly: stuffSize >= 1 && int(packet[4]) == stuffSize - 1
+//@   assert after "packet[4] = uint8(stuffSize - 1)" [C09.af.len.new.end] checkonly: 4 + stuffSize <= wpos && wpos + inSize == 188
 //@   loop 1 step [C09.ts.nostuff] thorough lpos < rpos ==> ps == (old(first) && frame.Key ? 12 : 4)
 //@   loop 2 invariant 0 <= i && i <= stuffSize
 //@   loop 2 fills thorough packet[base : base+i] with 0xFF
